@@ -349,6 +349,8 @@ type faultyDB struct {
 	n        map[string]int
 	disarmed bool
 	fired    int
+	muts     int    // successful PutNode / DeleteNode calls
+	lastKind string // kind of the last injected failure
 	fail     map[string]map[int]bool
 }
 
@@ -362,6 +364,7 @@ func (f *faultyDB) hit(kind string) bool {
 	if f.fail[kind][f.n[kind]] && !f.disarmed {
 		f.w.stats.Inc("fault." + kind)
 		f.fired++
+		f.lastKind = kind
 		return true
 	}
 	return false
@@ -376,12 +379,14 @@ func (f *faultyDB) PutNode(k util.Key, n util.Node) error {
 	if f.hit("dbput") {
 		return errInjected
 	}
+	f.muts++
 	return f.NodeDB.PutNode(k, n)
 }
 func (f *faultyDB) DeleteNode(k util.Key) error {
 	if f.hit("dbdel") {
 		return errInjected
 	}
+	f.muts++
 	return f.NodeDB.DeleteNode(k)
 }
 
